@@ -329,7 +329,16 @@ impl HiArgs {
     pub(crate) fn buffer_writer(&self) -> termcolor::BufferWriter {
         let mut wtr =
             termcolor::BufferWriter::stdout(self.color.to_termcolor());
-        wtr.separator(self.file_separator.clone());
+        // The buffer writer always ends its separator with `\n`, while the
+        // printer (which writes the separator in single threaded mode) ends
+        // it with the line terminator in use. Keep both in sync for --crlf.
+        let mut separator = self.file_separator.clone();
+        if self.crlf {
+            if let Some(ref mut sep) = separator {
+                sep.push(b'\r');
+            }
+        }
+        wtr.separator(separator);
         wtr
     }
 
